@@ -176,10 +176,21 @@ def run_real(cfg, ins, plan, make_batcher=None):
     beh = Behaviour(plan)
 
     async def main():
-        async def bf(batch):
+        def bf(batch):
+            # a plain callable returning an async iterable (what the batch function is declared to be); when the
+            # plan says "raise before anything else, at once" and the code is 2 mod 3, the error is a StopIteration
+            # raised by the call itself (`next(pool)` on an exhausted pool before delegating to a generator)
             batch = list(batch)
             b, script = beh([(kdec(k), a) for k, a in batch])
             out.append(('batch', now(), b, [kdec(k) for k, _ in batch], script))
+            d0, act0 = script[0]
+            if act0[0] == 'raise' and d0 == 0 and act0[1] % 3 == 2:
+                out.append(('act', now(), b, 0))
+                out.append(('batchend', now(), b))
+                raise StopIteration(act0[1])
+            return agen(batch, b, script)
+
+        async def agen(batch, b, script):
             try:
                 for idx, (d, act) in enumerate(script):
                     await asyncio.sleep(d * TICK)
@@ -191,6 +202,9 @@ def run_real(cfg, ins, plan, make_batcher=None):
                     elif act[0] == 'raise':
                         raise (EB if act[1] % 3 == 1 else E)(act[1])
             finally:
+                if plan.get('cleanup'):
+                    # winding the execution up takes time (closing a connection, ...): until then it is in progress
+                    await asyncio.sleep(plan['cleanup'] * TICK)
                 out.append(('batchend', now(), b))
         if make_batcher is None:
             bt = AsyncBackgroundBatcher(bf, max_batch_size=cfg['maxb'], max_concurrent_batches=cfg['maxc'],
@@ -211,6 +225,10 @@ def run_real(cfg, ins, plan, make_batcher=None):
                 oc = ('exc', MISSING)
             except TypeError:
                 oc = ('exc', TYPEERROR)
+            except RuntimeError as e:
+                # a StopIteration raised by the batch function cannot be set on a future as it is
+                oc = (('exc', e.__cause__.args[0]) if isinstance(e.__cause__, StopIteration) and e.__cause__.args
+                      else ('exc', 'RuntimeError'))
             except asyncio.CancelledError:
                 oc = ('cancelled',)
             except BaseException as e:  # noqa
@@ -270,6 +288,36 @@ def project(evs, prop):
         return ([e[3] for e in c if e[0] == 'batch'],                        # batch contents in order
                 sorted((e[2], e[3]) for e in c if e[0] == 'done'))
     return c
+
+
+# ------------------------------------------------------------------ executions that take time to wind up (C10)
+def gen_cleanup(rng):
+    """c10 programs (distinct keys, bursts) whose batch function needs `cleanup` ticks in its `finally` and which
+    sometimes trips `_process_batch` itself (a key yielded twice / an unknown key / a refused result), so that the
+    generator is abandoned in mid-flight.  Outside the Lean machine (it has no winding-up phase): monitor only."""
+    cfg, ins, plan = gen(rng, 'c10')
+    ins = [i for i in ins if i[0] != 'm']
+    plan['per'] = [[rng.choice([0, 0, 3, 4, 5]) for _ in range(6)] for _ in range(12)]
+    plan['cleanup'] = rng.choice([16, 48, 160])
+    plan['idelay'] = rng.choice([0, 16, 48])
+    cfg['maxc'] = rng.choice([1, 1, 2])
+    return cfg, ins, plan
+
+
+def monitor_cleanup(cfg, evs):
+    """never more than max_concurrent_batches executions in progress: from the call of the batch function to the end
+    of its `finally`."""
+    bad = []
+    evq = sorted([(e[1], 1, e[2]) for e in evs if e[0] == 'batch'] + [(e[1], 0, e[2]) for e in evs if e[0] == 'batchend'])
+    run = 0
+    for t, kind, b in evq:
+        run += 1 if kind else -1
+        if run > cfg['maxc']:
+            bad.append(('C10', 'concurrency', f'{run} executions of the batch function in progress at tick {t} (batch {b} '
+                                              f'started before an earlier execution had finished winding up); '
+                                              f'max_concurrent_batches = {cfg["maxc"]}'))
+            break
+    return bad
 
 
 # ------------------------------------------------------------------ cancel variants (C09, the theorem's shape)
